@@ -54,6 +54,7 @@ def _run_one(args):
                        seed=opts.get("seed", 0) + hash(json.dumps(shape, sort_keys=True)) % 1000003,
                        prefix=shape.get("_split", ()))
         ctx.max_degree = opts.get("max_degree")
+        ctx.focus = opts.get("focus")
         signal.signal(signal.SIGALRM, _alarm)
         signal.alarm(int(opts.get("instance_timeout_s", 3000)))
         try:
@@ -87,6 +88,8 @@ def replay_violation(modname, shape, viol, mode="exact"):
         mod.install()
     values = {k: v for k, v in viol["values"].items()}
     cctx = core.ConcreteCtx(values, [tuple(c) for c in viol["choices"]], mode=mode)
+    cctx.focus = viol["label"].split(":")[0]
+    cctx.other_hit = False
     try:
         cctx.run(lambda c: mod.run_instance(c, shape))
     finally:
@@ -126,6 +129,7 @@ def run_property(prop, harnesses, tier, seed, jobs=None, opts=None, out=sys.stdo
     t0 = time.time()
     opts = dict(opts or {})
     opts["seed"] = seed
+    opts["focus"] = prop
     jobs = jobs or min(16, os.cpu_count() or 4)
     known = load_known()
     tasks = []
